@@ -123,41 +123,36 @@ theorem linkLoop_congr (D : Decoders) (rs rs' : List Res) (fm : J) (cast cast' :
               · split
                 · exact ih' _
                 · split
-                  · cases hp : paletteId cd with
-                    | error e => rfl
-                    | ok pid =>
-                      simp only []
-                      by_cases hpos : pid > 0
-                      · simp only [hpos, if_true]
-                        have hc := hcast (pid - 1)
-                        cases h1 : pyIndex cast (pid - 1) with
-                        | error e =>
-                          rw [h1] at hc
-                          cases h2 : pyIndex cast' (pid - 1) with
-                          | error e' =>
-                            -- both raise; the error kind is not observable (canonicalised to "error"), but here they are equal: IndexError
-                            simp only [bind, Except.bind]
-                            rw [pyIndex_error _ _ _ h1, pyIndex_error _ _ _ h2]
-                          | ok o' => rw [h2] at hc; simp [Except.map] at hc
-                        | ok owner =>
-                          rw [h1] at hc
-                          cases h2 : pyIndex cast' (pid - 1) with
-                          | error e' => rw [h2] at hc; simp [Except.map] at hc
-                          | ok owner' =>
-                            rw [h2] at hc
-                            simp only [Except.map, Except.ok.injEq] at hc
-                            simp only [bind, Except.bind, hc]
-                            cases owner'.get? "palette" with
-                            | none => rfl
-                            | some v =>
-                              simp only [pure, Except.pure]
-                              cases D.bitd cd (some v) chunk.data with
-                              | error e => rfl
-                              | ok bmp => simp only []; exact ih' _
-                      · simp only [hpos, if_false, pure, Except.pure, bind, Except.bind]
-                        cases D.bitd cd none chunk.data with
-                        | error e => rfl
-                        | ok bmp => simp only []; exact ih' _
+                  · by_cases hpos : paletteId cd > 0
+                    · simp only [hpos, if_true]
+                      have hc := hcast (paletteId cd - 1)
+                      cases h1 : pyIndex cast (paletteId cd - 1) with
+                      | error e =>
+                        rw [h1] at hc
+                        cases h2 : pyIndex cast' (paletteId cd - 1) with
+                        | error e' =>
+                          simp only [bind, Except.bind]
+                          rw [pyIndex_error _ _ _ h1, pyIndex_error _ _ _ h2]
+                        | ok o' => rw [h2] at hc; simp [Except.map] at hc
+                      | ok owner =>
+                        rw [h1] at hc
+                        cases h2 : pyIndex cast' (paletteId cd - 1) with
+                        | error e' => rw [h2] at hc; simp [Except.map] at hc
+                        | ok owner' =>
+                          rw [h2] at hc
+                          simp only [Except.map, Except.ok.injEq] at hc
+                          simp only [bind, Except.bind, hc]
+                          cases owner'.get? "palette" with
+                          | none => rfl
+                          | some v =>
+                            simp only [pure, Except.pure]
+                            cases D.bitd cd (some v) chunk.data with
+                            | error e => rfl
+                            | ok bmp => simp only []; exact ih' _
+                    · simp only [hpos, if_false, pure, Except.pure, bind, Except.bind]
+                      cases D.bitd cd none chunk.data with
+                      | error e => rfl
+                      | ok bmp => simp only []; exact ih' _
                   · rfl
 
 end Drx.Dir
